@@ -34,8 +34,10 @@ theorem gen_assemble_shape :
     Gen.assembleShape = ["if:!isBlkDevice", "Truncate", "newNullChunkSeed", "newSelfSeed", "WriteInto", "ReadAt", "Sum",
       "writeChunk", "add", "writeChunk", "add", "Plan", "Validate", "Regenerate", "Rewind", "Plan", "waitOrInterrupted"] := by decide
 
-/-- `nullChunkSection.WriteInto`: no cloning → skip if blank, else fill; otherwise clone -/
-theorem gen_null_shape : Gen.nullWriteIntoShape = ["if:!s.canReflink", "if:isBlank", "copy", "clone"] := by decide
+/-- `nullChunkSection.WriteInto`, as a decision table over (canReflink, isBlank) read off the control flow however it is
+    spelled: no cloning → skip if blank, else fill; otherwise clone -/
+theorem gen_null_shape :
+    Gen.nullWriteIntoTable = ["false,false->copy", "false,true->return", "true,false->clone", "true,true->clone"] := by decide
 
 /-- `selfSeed.add` holds the lock while it advances the written prefix -/
 theorem gen_selfseed_shape : Gen.selfSeedAddShape = ["Lock", "Unlock", "if:!ok", "delete"] := by decide
